@@ -178,6 +178,23 @@ Proof.
   - simpl. eauto.
 Qed.
 
+(* ---- c_i.update(c_j) ------------------------------------------------------------------------------ *)
+Lemma pupd_from_sim c ks : forall pi pj mi mj,
+  1 <= c_max c -> Inv c mi -> Inv c mj -> PRel pi mi -> PRel pj mj ->
+  exists pi' pj', pupd_from c pi pj ks = (pi', pj', snd (upd_from c mi mj ks))
+    /\ PRel pi' (fst (fst (upd_from c mi mj ks))) /\ PRel pj' (snd (fst (upd_from c mi mj ks))).
+Proof.
+  induction ks as [|k rest IH]; intros pi pj mi mj Hmax Ii Ij Ri Rj; simpl.
+  - exists pi, pj. auto.
+  - destruct (pgetitem_sim c pj mj k Hmax Ij Rj) as [pj1 [Eg Rj1]]. rewrite Eg.
+    destruct (getitem_sim c mj k Hmax Ij) as [mj1 [ov [Em [Ij1 _]]]]. rewrite Em in *. simpl in *.
+    destruct ov as [v|]; simpl in *.
+    + destruct (psetitem_sim c pi mi k v Hmax Ii Ri) as [pi1 [Es Ri1]]. rewrite Es.
+      destruct (setitem_sim c mi k v Hmax Ii) as [mi1 [Ems [Ii1 _]]]. rewrite Ems in *. simpl in *.
+      now apply IH.
+    + exists pi, pj1. auto.
+Qed.
+
 (* ---- heaps of caches ---------------------------------------------------------------------------- *)
 Lemma Forall2_nth_error {A B} (P : A -> B -> Prop) l1 l2 i :
   Forall2 P l1 l2 ->
@@ -217,7 +234,7 @@ Lemma phobserve_sim c ph h o :
 Proof.
   intros Hmax FI F. unfold phobserve, hobserve.
   pose proof (Forall2_length' _ _ _ F) as LEN.
-  destruct o as [i o1|i|i j]; simpl.
+  destruct o as [i o1|i|i j|i j]; simpl.
   - pose proof (Forall2_nth_error _ _ _ i F) as N.
     destruct (nth_error ph i) as [p|] eqn:NP; destruct (nth_error h i) as [m|] eqn:NM; try tauto.
     + pose proof (nth_error_Forall _ _ _ _ FI NM) as I.
@@ -246,6 +263,26 @@ Proof.
       * split; [|exact F]. rewrite (pcache_eq_eq p m _ N).
         destruct N2 as [ES2 _ _ _ _ _]. rewrite ES2. destruct N as [_ _ _ _ _ EC]. rewrite EC.
         apply pobserve_eq. apply Forall2_nth; [exact F|apply prel_empty].
+      * split; [|exact F]. destruct N as [_ _ _ _ _ EC]. rewrite EC.
+        apply pobserve_eq. apply Forall2_nth; [exact F|apply prel_empty].
+    + simpl. split; [|exact F]. apply pobserve_eq. apply Forall2_nth; [exact F|apply prel_empty].
+  - (* UpdateFrom *)
+    pose proof (Forall2_nth_error _ _ _ i F) as N. pose proof (Forall2_nth_error _ _ _ j F) as N2.
+    destruct (nth_error ph i) as [pi|] eqn:NP; destruct (nth_error h i) as [mi|] eqn:NM; try tauto.
+    + destruct (nth_error ph j) as [pj|] eqn:NP2; destruct (nth_error h j) as [mj|] eqn:NM2; try tauto; simpl.
+      * assert (ESj : ps_store pj = store mj) by (destruct N2; assumption).
+        assert (ECi : ps_calls pi = calls mi) by (destruct N; assumption).
+        rewrite ESj, ECi. destruct (Nat.eqb i j).
+        -- simpl. split; [|exact F]. apply pobserve_eq. apply Forall2_nth; [exact F|apply prel_empty].
+        -- pose proof (nth_error_Forall _ _ _ _ FI NM) as Ii. pose proof (nth_error_Forall _ _ _ _ FI NM2) as Ij.
+           destruct (pupd_from_sim c (d_keys (store mj)) pi pj mi mj Hmax Ii Ij N N2) as [pi' [pj' [E [R1 R2]]]].
+           rewrite E. destruct (upd_from c mi mj (d_keys (store mj))) as [[mi' mj'] [[]|ex]]; simpl in *.
+           ++ assert (F' : Forall2 PRel (upd_nth i pi' (upd_nth j pj' ph)) (upd_nth i mi' (upd_nth j mj' h)))
+                by (apply Forall2_upd_nth; [apply Forall2_upd_nth|]; assumption).
+              split; [|exact F']. apply pobserve_eq. apply Forall2_nth; [exact F'|apply prel_empty].
+           ++ assert (F' : Forall2 PRel (upd_nth i pi' (upd_nth j pj' ph)) (upd_nth i mi' (upd_nth j mj' h)))
+                by (apply Forall2_upd_nth; [apply Forall2_upd_nth|]; assumption).
+              split; [|exact F']. apply pobserve_eq. apply Forall2_nth; [exact F'|apply prel_empty].
       * split; [|exact F]. destruct N as [_ _ _ _ _ EC]. rewrite EC.
         apply pobserve_eq. apply Forall2_nth; [exact F|apply prel_empty].
     + simpl. split; [|exact F]. apply pobserve_eq. apply Forall2_nth; [exact F|apply prel_empty].
